@@ -59,6 +59,11 @@ fn read_matches(ctx: &RunCtx, exp: &MRead, got: &anyhow::Result<ReadResult<Bytes
     }
 }
 
+thread_local! {
+    /// records of operations that failed under an injected fault (set by the caller before the views are built)
+    pub static FORBIDDEN: std::cell::RefCell<BTreeSet<(usize, u64)>> = std::cell::RefCell::new(BTreeSet::new());
+}
+
 /// Records that may or may not be visible (operations that failed, were cancelled or are still
 /// running as detached closures), at most four.
 pub fn optional_set(ctx: &RunCtx, phys: &BTreeMap<usize, Vec<PhysRec>>) -> Vec<(usize, u64)> {
@@ -79,6 +84,10 @@ pub fn optional_set(ctx: &RunCtx, phys: &BTreeMap<usize, Vec<PhysRec>>) -> Vec<(
 /// subset of the optional records left out.
 pub fn admissible_record_sets<'a>(phys: &'a BTreeMap<usize, Vec<PhysRec>>, attached: &BTreeSet<usize>, optional: &[(usize, u64)]) -> Vec<Vec<&'a PhysRec>> {
     let base: Vec<&PhysRec> = phys.iter().filter(|(b, _)| attached.contains(b)).flat_map(|(_, v)| v.iter()).filter(|r| r.complete && r.header_crc_ok).collect();
+    let base: Vec<&PhysRec> = FORBIDDEN.with(|f| {
+        let f = f.borrow();
+        base.into_iter().filter(|r| !f.contains(&(r.blob, r.offset))).collect()
+    });
     let mut out = Vec::new();
     for mask in 0..(1u32 << optional.len()) {
         let recs: Vec<&PhysRec> = base
@@ -126,6 +135,7 @@ where
     }
 
     // ---- views
+    FORBIDDEN.with(|f| *f.borrow_mut() = ctx.forbidden_records.borrow().clone());
     let optional: Vec<(usize, u64)> = if tolerant { optional_set(ctx, &phys) } else { vec![] };
     let sets = admissible_record_sets(&phys, &attached, &optional);
     let base: Vec<&PhysRec> = sets[0].clone();
